@@ -191,6 +191,8 @@ func InitSharedMultiColumnReaders(segKey string, colNames map[string]bool,
 
 	err := fileutils.GLOBAL_FD_LIMITER.TryAcquireWithBackoff(maxOpenFds, 10, fmt.Sprintf("InitSharedMultiColumnReaders.qid=%d", qid))
 	if err != nil {
+		// nothing was acquired, so Close() must not release anything
+		sharedReader.numOpenFDs = 0
 		return sharedReader, fmt.Errorf("qid=%d, InitSharedMultiColumnReaders: Failed to acquire resources to be able to open %+v FDs. Error: %+v", qid, maxOpenFds, err)
 	}
 	csgFileToColNameMap := make(map[string]string)
@@ -271,19 +273,25 @@ func (scr *SharedMultiColReaders) Close() {
 			multiReader.returnBuffers()
 		}
 	}
-	for _, reader := range scr.allFDs {
+	for colName, reader := range scr.allFDs {
 		if reader != nil {
 			err := reader.Close()
 			if err != nil {
 				log.Errorf("SharedMultiColReaders.Close: Failed to close fd! err: %+v", err)
 			}
 		}
+		delete(scr.allFDs, colName)
 	}
 	err := blob.SetSegSetFilesAsNotInUse(scr.allInUseFiles)
 	if err != nil {
 		log.Errorf("SharedMultiColReaders.Close: Failed to release needed segment files from local storage %+v! err: %+v", scr.allInUseFiles, err)
 	}
-	fileutils.GLOBAL_FD_LIMITER.Release(scr.numOpenFDs)
+	// Close() can be called again by the caller after InitSharedMultiColumnReaders already
+	// closed the readers on an error; release the FD budget only once.
+	if scr.numOpenFDs > 0 {
+		fileutils.GLOBAL_FD_LIMITER.Release(scr.numOpenFDs)
+		scr.numOpenFDs = 0
+	}
 }
 
 func (scr *SharedMultiColReaders) GetColumnsErrorsMap() map[string]error {
